@@ -129,6 +129,18 @@ let handle (f : string array) : string =
         | [o; c; v] -> { x_id = List.hd (oids_of o); x_crit = (c = "1"); x_val = bytes_of_hex v }
         | _ -> failwith "bad ext") (split_on '+' s) in
     (match f.(2) with
+     | "tbsc" ->
+       let nl s = List.map (fun x -> n_of_int (int_of_string x)) (split_on ',' s) in
+       let bc = Array.of_list (String.split_on_char ',' f.(14)) in
+       let fields = { f_keyusage = n_of_int (int_of_string f.(11)); f_ekus = nl f.(12); f_unknown_ekus = oids_of f.(13);
+                      f_bcvalid = (bc.(0) = "1"); f_isca = (bc.(1) = "1"); f_maxpathlen = z_of_int (int_of_string bc.(2));
+                      f_maxpathlenzero = (bc.(3) = "1"); f_ski = bytes_of_hex f.(15); f_aki = bytes_of_hex f.(16);
+                      f_dns = hexlist f.(17); f_emails = hexlist f.(18); f_ips = hexlist f.(19); f_policies = oids_of f.(20);
+                      f_permitted = hexlist f.(22); f_permitted_critical = (f.(21) = "1") } in
+       (match build_tbs_cert_run (z_of_dec f.(3)) (elem_of f.(4)) (elem_of f.(5)) (elem_of f.(6)) (elem_of f.(7)) (elem_of f.(8))
+                (os2ip (bytes_of_hex f.(9))) (os2ip (bytes_of_hex f.(10))) fields with
+        | Ok v -> "ok " ^ hex_of_bytes v
+        | Err _ -> "err create" | Panic -> "PANIC" | Hang -> "HANG")
      | "tbs" ->
        let rl = (f.(3) = "rl") in
        let ski = bytes_of_hex f.(8) in
